@@ -45,10 +45,11 @@ func calleeParamTypes(cc *ssa.CallCommon) []types.Type {
 	return out
 }
 
-func (c *FnCtx) eventCall(st *State, ins ssa.Instruction, cc *ssa.CallCommon) {
+func (c *FnCtx) eventCall(st *State, ins ssa.Instruction, cc *ssa.CallCommon) map[int]Term {
 	if c.dry || len(c.flags) == 0 {
-		return
+		return nil
 	}
+	retConds := map[int]Term{}
 	var names []string
 	if sc := cc.StaticCallee(); sc != nil {
 		names = shortFuncName(sc)
@@ -134,11 +135,42 @@ func (c *FnCtx) eventCall(st *State, ins ssa.Instruction, cc *ssa.CallCommon) {
 			}
 			conds = append(conds, eq(at, ptn))
 		}
+		if fl.ret {
+			retConds[fl.id] = c.define(fmt.Sprintf("retc%d", fl.id), "Bool", and(st.pc, and(conds...)))
+			continue
+		}
 		old := st.flags[fl.id]
 		if old == "" {
 			old = "false"
 		}
 		st.flags[fl.id] = c.define(fmt.Sprintf("flag%d", fl.id), "Bool", or(old, and(st.pc, and(conds...))))
+	}
+	return retConds
+}
+
+// eventRet records the result of calls matched by retof(...) patterns.
+func (c *FnCtx) eventRet(st *State, conds map[int]Term, v ssa.Value) {
+	if len(conds) == 0 || v == nil {
+		return
+	}
+	r := c.regs[v]
+	if r == nil || r.S == "" {
+		return
+	}
+	for _, fl := range c.flags {
+		cond, ok := conds[fl.id]
+		if !ok || !fl.ret {
+			continue
+		}
+		old := st.flags[fl.id]
+		if old == "" {
+			old = c.retInit(fl)
+		}
+		rs := r.S
+		if c.isIface(fl.retT) && !c.isIface(r.T) {
+			rs = c.box(r)
+		}
+		st.flags[fl.id] = c.define(fmt.Sprintf("ret%d", fl.id), fl.sort, ite(cond, rs, old))
 	}
 }
 
@@ -180,7 +212,12 @@ func (c *FnCtx) setResult(v ssa.Value, r *Val) {
 }
 
 func (c *FnCtx) doCall(st *State, v ssa.Value, cc *ssa.CallCommon, ins ssa.Instruction) {
-	c.eventCall(st, ins, cc)
+	conds := c.eventCall(st, ins, cc)
+	c.doCallInner(st, v, cc, ins)
+	c.eventRet(st, conds, v)
+}
+
+func (c *FnCtx) doCallInner(st *State, v ssa.Value, cc *ssa.CallCommon, ins ssa.Instruction) {
 	var resT types.Type
 	if v != nil {
 		resT = v.Type()
@@ -471,7 +508,7 @@ func hasCalled(e specExpr) bool {
 	found := false
 	walkSpec(e, func(x specExpr) {
 		if call, ok := x.(*eCall); ok {
-			if id, ok := call.fun.(*eIdent); ok && id.name == "called" {
+			if id, ok := call.fun.(*eIdent); ok && (id.name == "called" || id.name == "retof") {
 				found = true
 			}
 		}
